@@ -4,7 +4,7 @@
 # calls for incremental builds): demo passes without the patch, fails with it, and the full
 # existing suite still passes with it. Writes <candidate_dir>/verify.json.
 set -u
-WT=/tmp/seed-verify-wt
+WT=${SEED_VERIFY_WT:-/tmp/seed-verify-wt}
 if [ ! -d "$WT" ]; then git -C /repo worktree add --detach "$WT" HEAD >/dev/null 2>&1 || exit 2; fi
 cd "$WT" || exit 2
 git checkout -q --detach "$(git -C /repo rev-parse HEAD)" 2>/dev/null
